@@ -51,4 +51,44 @@ theorem scheduler_stop_cancels_timer_holds : scheduler_stop_cancels_timer = true
 /-- `connection_lost` leaves `_deferred` and `_timers` alone (it does nothing) -/
 theorem connection_lost_is_noop_holds : connection_lost_is_noop = true := by decide
 
+/-! the sync path (`Zeroconf.close()` from a non-loop thread) -/
+
+/-- `_close()` sets `done`, after cancelling every browser of `Zeroconf.browsers` -/
+theorem close_sets_done_holds : close_sets_done = true := by decide
+theorem close_not_skipped_before_done : close_skipped false = false := by simp [close_skipped]
+theorem close_skipped_iff (d : Bool) : close_skipped d = d := by simp [close_skipped]
+theorem close_removes_service_listeners_holds : (close_removes_service_listeners && remove_listener_cancels) = true := by decide
+theorem remove_listener_forgets_holds : remove_listener_forgets = true := by decide
+/-- `ServiceBrowser.cancel()`: sentinel, `_async_cancel` on the loop, `join()` -/
+theorem thread_cancel_joins_holds : (thread_cancel_signals && thread_cancel_joins) = true := by decide
+theorem thread_cancel_schedules_async_cancel_holds : thread_cancel_schedules_async_cancel = true := by decide
+/-- `ServiceBrowser.run()` stops at the sentinel on every tree: `if event is None …: return` -/
+theorem thread_run_stops_at_sentinel (z b : Bool) : thread_run_stops true z b = true := by simp [thread_run_stops]
+/-! (Whether `cancel()` tests "am I that thread" — `thread_cancel_guards_self_join` — and whether `run()` also looks at a `done`
+flag — `thread_run_stops false …` — differ between the tree with and without the repairs of findings D30 / D31
+(`notes/fixes/D30.diff`, `D31.diff`); no lemma here fixes either value: the C17 theorems carry them as hypotheses, so the same
+proofs check on both trees.  Once the repairs are in `/repo`, add `thread_cancel_guards_self_join = true` and
+`thread_run_stops false true b = true` here and discharge those hypotheses (notes/agents/C17.md, "flip").) -/
+/-- (repair of D30) `ServiceBrowser.cancel()` tests whether it runs on the browser's own thread before joining -/
+theorem thread_cancel_guards_self_join_holds : thread_cancel_guards_self_join = true := by decide
+/-- (repair of D31) `ServiceBrowser.run()` returns once the instance is done, whatever is still queued -/
+theorem thread_run_stops_when_done (c : Bool) : thread_run_stops false true c = true := by simp [thread_run_stops]
+/-- the four calls of `Zeroconf.close()` come in the order of the model's stages -/
+theorem sync_order_holds : (sync_close_unregisters_before_done && sync_close_done_before_engine_close
+    && sync_close_engine_close_before_threads && async_close_sets_done_first) = true := by decide
+/-- the goodbyes are sent exactly while the loop runs -/
+theorem sync_close_unregisters_iff (r : Bool) : sync_close_unregisters_if_loop_running r = r := by simp [sync_close_unregisters_if_loop_running]
+/-- `AsyncEngine.close()` from a non-loop thread: nothing when the loop does not run, otherwise `_async_close()` is run on the
+loop **and waited for** -/
+theorem engine_close_off_loop : engine_close_on_own_loop false = false := by simp [engine_close_on_own_loop]
+theorem engine_close_skipped_iff (r : Bool) : engine_close_skipped r = !r := by simp [engine_close_skipped]
+theorem engine_close_awaits_async_close_holds : engine_close_awaits_async_close = true := by decide
+theorem engine_async_close_shuts_down_holds : (engine_async_close_shuts_down && engine_shutdown_clears_running) = true := by decide
+/-- `_shutdown_threads()`: nothing without a loop thread; otherwise the loop is stopped, the thread joined and **forgotten** -/
+theorem shutdown_threads_skipped_iff (t : Bool) : shutdown_threads_skipped t = !t := by simp [shutdown_threads_skipped]
+theorem shutdown_threads_stops_loop_holds : shutdown_threads_stops_loop = true := by decide
+theorem shutdown_threads_forgets_thread_holds : shutdown_threads_forgets_thread = true := by decide
+/-- `Zeroconf.started` -/
+theorem started_iff (d s : Bool) : started d true s = (!d && s) := by simp [started]
+
 end Zc.GenFacts.Shutdown
